@@ -523,4 +523,8 @@ def run(run, model):
     from rules import c05
     run.rule("R18.9", "binders of generated code are distinct variables (shared with C05 R05.6: every binder id is fresh, never interned by syntax pointer)")
     run.try_rule(c05.r05_6, model)
+    # the derives bind the fields with a struct pattern `Name { f: f }`: it names the struct even when a variant has that name
+    # (shared with C06 R06.16)
+    from rules import c06 as _c06b
+    run.try_rule(_c06b.r06_16, model)
     run.assume("numeric leaves go through *_to_string, whose verbs are checked by C10 R10.4")
